@@ -174,8 +174,14 @@ def check_table(case):
                 out.append(("node", "interpolant(node %r) = %r, tabulated %r" % (x, it(x), y), None))
         except Exception as ex:
             out.append(("node", "interpolant(node %r) raised %r" % (x, ex), None))
-    for xo in (lo - 1e-6, hi + 1e-6, lo - 5, hi + 5):
+    # (a hair outside - less than the object's tolerance - is probed for derivative() only: __call__ takes such an
+    # abscissa for the end point itself, by design)
+    for xo in (lo - 1e-6, hi + 1e-6, lo - 5, hi + 5, lo - 4e-11, hi + 4e-11):
         for name, fn in (("call", it), ("derivative", it.derivative)):
+            if name == "call" and abs(xo - lo) < 1e-9 or name == "call" and abs(xo - hi) < 1e-9:
+                continue
+            if lo <= xo <= hi:          # (4e-11 is below the spacing of doubles on Julian-day grids)
+                continue
             try:
                 r = fn(xo)
                 out.append(("outside", "%s(%r) outside the table [%r, %r] returned %r"
@@ -382,6 +388,59 @@ def run_roots(block, ctx):
             ctx.nt_count += 1
         ctx.outcome((case["table"], case["kind"], len(res)))
         ctx.obs(case["table"], case["kind"], case["xl"], case["xh"], len(res))
+    ctx.sample(block[0])
+
+
+# -- root() with a tightened tolerance and a search limit a hair beyond the root ----------------------------------
+
+TOL_TABLES = {
+    "lin": ([-1.0, 0.0, 1.0], lambda x: x - 0.3, 0.3, (-1.0, 1.0)),
+    "quad": ([0.0, 1.0, 2.0, 3.0, 4.0], lambda x: (x - 1.7) * (x + 2.0) * 0.25, 1.7, (0.4, 3.6)),
+    "offset": ([27.0, 27.5, 28.0, 28.5, 29.0], lambda x: (x - 28.1) * (x - 26.0) * 0.3, 28.1, (27.2, 28.9)),
+    "steep": ([0.0, 1.0, 2.0, 3.0], lambda x: 40.0 * (x - 1.25) * (x + 1.0), 1.25, (0.5, 2.5)),
+}
+
+
+def tol_cases():
+    return [{"table": t, "tol": tol, "off": off, "side": side} for t in TOL_TABLES for tol in (1e-12, 1e-13)
+            for off in (3e-11, 5e-11, 8e-11, 2e-12) for side in ("high", "low", "reversed")]
+
+
+def check_root_tolerance(case):
+    """The object's tolerance is tightened with set_tolerance(); one search limit lies `off` beyond the root (the
+    interpolant changes sign on the interval): the returned abscissa must make the interpolant vanish to the
+    OBJECT's tolerance (scaled by the size of the table's ordinates as everywhere in this check)."""
+    xs, fn, root, (a, b) = TOL_TABLES[case["table"]]
+    ys = [float(fn(x)) for x in xs]
+    it = Interpolation(list(xs), list(ys))
+    it.set_tolerance(case["tol"])
+    off = case["off"]
+    xl, xh = {"high": (a, root + off), "low": (root - off, b), "reversed": (b, root - off)}[case["side"]]
+    lo, hi = min(xl, xh), max(xl, xh)
+    p = P.interpolant(xs, ys)
+    if P.sign(P.peval(p, Fraction(lo))) * P.sign(P.peval(p, Fraction(hi))) >= 0:
+        return []
+    label = "%s.root(%r, %r) with tolerance %g" % (case["table"], xl, xh, case["tol"])
+    try:
+        r = it.root(xl, xh)
+    except Exception as ex:
+        return [("tol_exception", "%s raised %r" % (label, ex), None)]
+    out = []
+    if not (lo - 1e-15 <= r <= hi + 1e-15):
+        out.append(("tol_outside", "%s = %r outside the interval" % (label, r), None))
+    v = abs(float(P.peval(p, Fraction(r))))
+    if v > 4.0 * case["tol"]:
+        out.append(("tol_notzero", "%s = %r, the interpolant is %.3g there (object tolerance %g)" % (label, r, v, case["tol"]), v))
+    return out
+
+
+def run_root_tolerance(block, ctx):
+    for case in block:
+        ctx.evals += 1
+        ctx.nt_count += 1
+        for site, msg, dev in check_root_tolerance(case):
+            ctx.viol(case, msg, dev=dev, site=site)
+        ctx.outcome((case["table"], case["side"]))
     ctx.sample(block[0])
 
 
@@ -692,6 +751,8 @@ def clauses(tier):
         Clause("duplicates", [dup_cases()], run_dups, check_duplicates, floor=10),
         Clause("roots_extrema", chunks(root_cases(), 32), run_roots,
                lambda c: [m for _, m, _ in check_root(c)], floor=500),
+        Clause("root_tolerance", chunks(tol_cases(), 16), run_root_tolerance,
+               lambda c: [m for _, m, _ in check_root_tolerance(c)], floor=50),
         Clause("conjunction_helpers", chunks(helper_cases(), 16), run_helpers,
                lambda c: [m for _, m, _ in check_helper(c)], floor=100),
         Clause("minimum_separation", [minsep_cases()], run_minsep,
